@@ -33,6 +33,9 @@ impl Database {
         system_root: Option<[u8; 32]>,
     ) -> Result<(bool, Vec<VerifC01Page>)> {
         let mem = self.get_memory();
+        // Read from the file, not from pages cached for another tree, and leave no cached page of a
+        // possibly stale tree behind (do_repair does the same around its walks)
+        mem.clear_read_cache();
         let mut pages = Vec::new();
         let mut verified = true;
         for root in [data_root, system_root] {
@@ -60,6 +63,7 @@ impl Database {
                 Err(err) => return Err(err),
             }
         }
+        mem.clear_read_cache();
         Ok((verified, pages))
     }
 }
